@@ -12,6 +12,11 @@ structure FlowsSt where
   engine2 : Bool := false                 -- two overlapping flows, each with its own flow context
   specs2  : AMap (String × Nat) := []     -- flow letter ↦ (processor key, attempts)
   built   : Bool := false
+  same    : Bool := false                 -- engine2: flow B sits on the same url pattern as flow A
+  sa      : List Int := []                -- engine2: flow-filter status_code list of flow A ([] = none)
+  sb      : List Int := []
+  overlap : Bool := false                 -- direct mode on a manual clock: transactions overlap in the cool-down
+  parked  : List (String × Key) := []     -- overlap: (transaction id, counter key) parked in their cool-down
   timeout : Option Int
   lo : Int := 0
   hi : Int := 0
@@ -39,17 +44,39 @@ def parseRanges (s : String) : Option (List (Int × Int)) :=
       pure (x, y)
     | _ => none
 
+/-- `500,502` → [500, 502]; `-` or absent → [] (canonical decimal integers only) -/
+def parseStatusList (ws : List String) (k : String) : Option (List Int) :=
+  match kv ws k with
+  | none => some []
+  | some v =>
+    if v == "-" then some [] else
+    (v.splitOn ",").mapM fun part =>
+      match part.toInt? with
+      | some n => if toString n == part then some n else none
+      | none => none
+
+def statusOk (l : List Int) (status : Int) : Bool := l.isEmpty || l.contains status
+
 def parseMode (ws : List String) : Option FlowsSt := do
   let mode ← kv ws "mode"
   let tmo ← kv ws "timeout"
   let t : Option Int ← if tmo == "unset" then some none else (tmo.toInt?).map some
   if mode == "direct" then
     pure { engine := false, timeout := t }
+  else if mode == "overlap" then
+    pure { engine := false, overlap := true, timeout := t }
   else if mode == "engine" || mode == "engine2" then
     let lo ← kvInt ws "lo"
     let hi ← kvInt ws "hi"
     if t.isNone then none
-    else pure { engine := mode == "engine", engine2 := mode == "engine2", timeout := t, lo := lo, hi := hi }
+    else if mode == "engine" then pure { engine := true, timeout := t, lo := lo, hi := hi }
+    else
+      let same ← match kv ws "url2" with
+        | none => some false
+        | some u => if u == "same" then some true else if u == "items" then some false else none
+      let sa ← parseStatusList ws "sa"
+      let sb ← parseStatusList ws "sb"
+      pure { engine := false, engine2 := true, timeout := t, lo := lo, hi := hi, same := same, sa := sa, sb := sb }
   else none
 
 def initResStr : InitRes → String
@@ -95,6 +122,7 @@ def flowsStep (s : RunSt) (ws : List String) : RunSt × String :=
       match lookup pn f.procs with
       | none => (s, "bad-op")
       | some p =>
+        if f.overlap then (s, "bad-op") else
         if f.engine then
           match kvInt r "status" with
           | none => (s, "bad-op")
@@ -110,6 +138,38 @@ def flowsStep (s : RunSt) (ws : List String) : RunSt × String :=
           let (m', o) := fstep p f.ctr key
           ({ s with fl := some { f with ctr := m', keys := addKey key f.keys } }, fmtFOut o (lookup key m').isSome)
     | _, _, _ => (s, "bad-op")
+  | "fxb" :: r =>
+    -- the transaction reads, increments and stores the counter and decides BEFORE it waits out its cool-down
+    match s.fl, kv r "p", kv r "seq", kv r "id" with
+    | some f, some pE, some sE, some idE =>
+      if !f.overlap then (s, "bad-op") else
+      let pn := pctDec pE
+      let txn := pctDec idE
+      match lookup pn f.procs with
+      | none => (s, "bad-op")
+      | some p =>
+        if f.parked.any (·.1 == txn) then (s, "bad-op") else
+        let key := counterKey pn (pctDec sE)
+        let (m', o) := fstep p f.ctr key
+        let f' := { f with ctr := m', keys := addKey key f.keys }
+        let c := b2s (lookup key m').isSome
+        match o with
+        | .failed => ({ s with fl := some f' }, s!"failed act=0 wait=0 ctr={c}")
+        | .retry 0 => ({ s with fl := some f' }, s!"retry act=1 wait=0 ctr={c}")
+        | .retry w =>
+          ({ s with fl := some { f' with parked := f'.parked ++ [(txn, key)] } }, s!"parked wait={w * 1000000000} ctr={c}")
+    | _, _, _, _ => (s, "bad-op")
+  | "fxe" :: r =>
+    match s.fl, kv r "id" with
+    | some f, some idE =>
+      if !f.overlap then (s, "bad-op") else
+      let txn := pctDec idE
+      match f.parked.find? (·.1 == txn) with
+      | none => (s, "bad-op")
+      | some (_, key) =>
+        ({ s with fl := some { f with parked := f.parked.filter (·.1 != txn) } },
+         s!"retry act=1 ctr={b2s (lookup key f.ctr).isSome}")
+    | _, _ => (s, "bad-op")
   | ["fbuild"] =>
     match s.fl with
     | some f =>
@@ -140,8 +200,9 @@ def flowsStep (s : RunSt) (ws : List String) : RunSt × String :=
             | .failed => (m', "failed", false)
           else (m, "skip", false)
         | none => (m, "-", false)
-      let (m1, ta, ra) := runFlow f.ctr "A" true
-      let (m2, tb, rb) := runFlow m1 "B" (both == 1)
+      -- a flow runs when its url pattern matches and the status is in its own status_code list (if it has one)
+      let (m1, ta, ra) := runFlow f.ctr "A" (statusOk f.sa status)
+      let (m2, tb, rb) := runFlow m1 "B" ((f.same || both == 1) && statusOk f.sb status)
       let ctrOf (l : String) : Bool :=
         match lookup l f.specs2 with
         | some (key, _) => (lookup (l ++ "/" ++ counterKey key seq) m2).isSome
@@ -308,7 +369,8 @@ def runStep (s : RunSt) (line : String) : RunSt × String :=
   match words line with
   | ["case", id] => ({}, s!"case {id}")
   | w :: r =>
-    if w == "fmode" || w == "fproc" || w == "fx" || w == "fq" || w == "fleak" || w == "fbuild" || w == "fx2" then
+    if w == "fmode" || w == "fproc" || w == "fx" || w == "fq" || w == "fleak" || w == "fbuild" || w == "fx2"
+        || w == "fxb" || w == "fxe" then
       flowsStep s (w :: r)
     else if w == "pcfg" || w == "presp" || w == "adv" || w == "jump" || w == "pbulk"
         || w == "dcfg" || w == "dreq" || w == "dresp" then policyStep s (w :: r)
@@ -323,6 +385,9 @@ structure JudgeSt where
   hi : Int := 0
   procs : AMap PCfg := []
   specs2 : AMap (String × Nat) := []
+  same : Bool := false
+  sa : List Int := []
+  sb : List Int := []
   fev : List FEvent := []        -- most recent first
   pcfg : Option RCfg := none
   pev : List PEvent := []        -- most recent first (reversed at the end)
@@ -343,7 +408,7 @@ def judgeStep (s : JudgeSt) (op out : String) : JudgeSt :=
   match words op with
   | "fmode" :: r =>
     match parseMode r with
-    | some f => { s with engine := f.engine, lo := f.lo, hi := f.hi }
+    | some f => { s with engine := f.engine, lo := f.lo, hi := f.hi, same := f.same, sa := f.sa, sb := f.sb }
     | none => s
   | "fproc" :: r =>
     match kv r "name", kvInt r "attempts", kvInt r "cooldown", kvInt r "mult4" with
@@ -356,6 +421,26 @@ def judgeStep (s : JudgeSt) (op out : String) : JudgeSt :=
         else { s with procs := insert (pctDec nameE) ⟨att.toNat, cd.toNat, k4.toNat⟩ s.procs }
       else s
     | _, _, _, _ => s
+  | "fxb" :: r =>
+    -- a transaction that begins: its answer (parked = retry after the cool-down, retry at once, failed) counts for its
+    -- sequence from this moment on, also while it is still parked
+    match kv r "p", kv r "seq", ows.head?, kvNat ows "wait", kvNat ows "ctr" with
+    | some pE, some sE, some tag, some wait, some ctr =>
+      match lookup (pctDec pE) s.procs with
+      | none => setBad s "answer-from-unconfigured-processor"
+      | some p =>
+        let key := counterKey (pctDec pE) (pctDec sE)
+        if !(tag == "parked" || tag == "retry" || tag == "failed") then setBad s ("unknown-answer:" ++ pctEnc out)
+        else if wait % 1000000000 != 0 then setBad s "cool-down-not-whole-seconds"
+        else if tag == "failed" && ctr != 0 then setBad s s!"counter-kept-after-failed key={pctEnc key}"
+        else if tag == "parked" && wait == 0 then setBad s "parked-without-cool-down"
+        else
+          let o : FOut := if tag == "failed" then .failed else .retry (wait / 1000000000)
+          { s with fev := ⟨p, key, o⟩ :: s.fev }
+    | _, _, _, _, _ => setBad s ("unparsable-answer:" ++ pctEnc out)
+  | "fxe" :: _ =>
+    if ows.head? == some "retry" && kvNat ows "act" == some 1 then s
+    else setBad s ("parked-transaction-did-not-end-as-retry:" ++ pctEnc out)
   | "fx2" :: r =>
     -- two overlapping flows: each flow that matches the call must count the sequence on its own
     match kv r "seq", kvNat r "both", kvInt r "status", kv ows "A", kv ows "B", kvNat ows "act",
@@ -381,8 +466,8 @@ def judgeStep (s : JudgeSt) (op out : String) : JudgeSt :=
             let o : FOut := if tag == "retry" then .retry 0 else .failed
             ({ s with fev := ⟨⟨att, 0, 0⟩, l ++ "/" ++ counterKey key seq, o⟩ :: s.fev },
              anyRetry || tag == "retry")
-      let (s1, r1) := one (s, false) "A" ta true ca
-      let (s2, r2) := one (s1, r1) "B" tb (both == 1) cb
+      let (s1, r1) := one (s, false) "A" ta (statusOk s.sa status) ca
+      let (s2, r2) := one (s1, r1) "B" tb ((s.same || both == 1) && statusOk s.sb status) cb
       if (act != 0) != r2 then setBad s2 s!"retry-action-present={act}-but-some-processor-asked-retry={b2s r2}"
       else s2
     | _, _, _, _, _, _, _, _ => setBad s ("unparsable-answer:" ++ pctEnc out)
